@@ -554,7 +554,7 @@ fn main() {
         use std::os::unix::fs::FileExt;
         let script = std::fs::read_to_string(arg_str(&args, "script", "")).expect("--script");
         let shm = arg_str(&args, "shm", "");
-        let file = std::fs::OpenOptions::new().read(true).write(true).create(true).truncate(true).open(&shm).expect("shm file");
+        let mut file = std::fs::OpenOptions::new().read(true).write(true).create(true).truncate(true).open(&shm).expect("shm file");
         clock::fixed::install();
         let mut client: Option<ClockBoundClient> = None;
         let out = std::io::stdout();
@@ -586,6 +586,19 @@ fn main() {
                 "V" => {
                     file.write_at(&(num(1) as u16).to_ne_bytes(), 12).unwrap();
                 }
+                "R" => {
+                    // the segment file is removed and created anew (a service manager that re-creates the
+                    // run-time directory on restart): header with the given version and generation, zero body
+                    let _ = std::fs::remove_file(&shm);
+                    file = std::fs::OpenOptions::new().read(true).write(true).create(true).truncate(true).open(&shm).expect("shm file");
+                    let mut b = [0u8; 72];
+                    b[0..4].copy_from_slice(&0x414D5A4Eu32.to_ne_bytes());
+                    b[4..8].copy_from_slice(&0x43420200u32.to_ne_bytes());
+                    b[8..12].copy_from_slice(&72u32.to_ne_bytes());
+                    b[12..14].copy_from_slice(&(num(1) as u16).to_ne_bytes());
+                    b[14..16].copy_from_slice(&(num(2) as u16).to_ne_bytes());
+                    file.write_at(&b, 0).unwrap();
+                }
                 "O" => {
                     client = None;
                     match ClockBoundClient::new_with_path(&shm) {
@@ -605,6 +618,7 @@ fn main() {
                             Ok(r) => writeln!(out, "OK {} {} {} {} {}", r.earliest.tv_sec(), r.earliest.tv_nsec(), r.latest.tv_sec(), r.latest.tv_nsec(), status_num(r.clock_status)).unwrap(),
                             Err(e) => writeln!(out, "ERR {} {} {}", kind_name(&e.kind), e.errno.0, if e.detail.is_empty() { "-" } else { &e.detail }).unwrap(),
                         }
+                        out.flush().unwrap();
                     }
                 },
                 _ => {}
